@@ -9,6 +9,7 @@ package crdt
 
 import (
 	vs "github.com/emitter-io/emitter/internal/verifspec"
+	"github.com/kelindar/binary"
 	"github.com/tidwall/buntdb"
 )
 
@@ -275,3 +276,26 @@ func post_binary_ToBytes(v string, res0 []byte) bool {
 func post_binary_ToString(b *[]byte, res0 string) bool {
 	return b != nil && len(res0) == len(*b) && vs.Forall(0, len(res0), func(i int) bool { return res0[i] == (*b)[i] })
 }
+
+// ---------------------------------------------------------------------------------------------------------
+// Hostile input (property C09): Merge receives sets decoded from gossip payloads. Safety for ANY argument set whose
+// values carry their 16-byte header - which the decoder must therefore guarantee (contract on DecodeTo below).
+
+//@ verify (*Volatile).Merge as=anyinput pre=pre_Volatile_Merge_any props=C09
+//@ loop (*Volatile).Merge 0 inv inv_Volatile_Merge_any modifies=*
+func pre_Volatile_Merge_any(s *Volatile, other Map) bool {
+	r, ok := other.(*Volatile)
+	return s != nil && s.lock != nil && ok && r != nil && r.lock != nil && specWF(s.data) && specWF(r.data)
+}
+func inv_Volatile_Merge_any(s *Volatile, r *Volatile) bool {
+	return s != nil && r != nil && specWF(s.data) && specWF(r.data)
+}
+
+// the decoder of gossip payloads only ever builds a set whose values carry their header (what Merge relies on)
+//@ verify (*codecVolatile).DecodeTo pre=pre_codecVolatile_DecodeTo props=C09
+//@ loop (*codecVolatile).DecodeTo 0 inv inv_codecVolatile_DecodeTo modifies=*
+func pre_codecVolatile_DecodeTo(d *binary.Decoder) bool { return d != nil }
+func inv_codecVolatile_DecodeTo(out *Volatile) bool   { return out != nil && specWF(out.data) }
+
+//@ assume (*github.com/kelindar/binary.Decoder).ReadSlice iface post=post_Decoder_ReadSlice
+func post_Decoder_ReadSlice(res0 []byte, res1 error) bool { return vs.WellFormed(res0) }
